@@ -38,7 +38,11 @@ Record grocell := mkGro {
   g_resid : Z; g_resname : string; g_name : string; g_atomid : Z;
   g_pos : V3 T; g_vel : option (V3 T) }.
 
-Record heap := mkHeap { hgro : list grocell; htop : list topcell; hmt : list string }.
+(* what an Alignment object stores at one end: a Molecule (its MoleculeTop name cell, topology atoms, residues) *)
+Definition mol := (loc * list loc * list (list loc))%type.
+
+Record heap := mkHeap { hgro : list grocell; htop : list topcell; hmt : list string;
+                        hali : list (option mol * option mol)   (* Alignment objects: (_start, _end) *) }.
 
 (* ------------------------------------------------------------------ state + error monad *)
 Definition M (A : Type) := heap -> heap * res A.
@@ -68,35 +72,43 @@ Definition gro_get (l : loc) : M grocell :=
   fun h => (h, match nth_error (hgro h) l with Some c => Ok c | None => Err EKey end).
 Definition gro_set (l : loc) (c : grocell) : M unit :=
   fun h => match nth_error (hgro h) l with
-           | Some _ => (mkHeap (upd (hgro h) l c) (htop h) (hmt h), Ok tt)
+           | Some _ => (mkHeap (upd (hgro h) l c) (htop h) (hmt h) (hali h), Ok tt)
            | None => (h, Err EKey)
            end.
 Definition gro_mod (l : loc) (f : grocell -> grocell) : M unit :=
   do c <- gro_get l; gro_set l (f c).
 Definition gro_alloc_list (cs : list grocell) : M (list loc) :=
-  fun h => (mkHeap (hgro h ++ cs) (htop h) (hmt h), Ok (seq (length (hgro h)) (length cs))).
+  fun h => (mkHeap (hgro h ++ cs) (htop h) (hmt h) (hali h), Ok (seq (length (hgro h)) (length cs))).
 
 Definition top_get (l : loc) : M topcell :=
   fun h => (h, match nth_error (htop h) l with Some c => Ok c | None => Err EKey end).
 Definition top_set (l : loc) (c : topcell) : M unit :=
   fun h => match nth_error (htop h) l with
-           | Some _ => (mkHeap (hgro h) (upd (htop h) l c) (hmt h), Ok tt)
+           | Some _ => (mkHeap (hgro h) (upd (htop h) l c) (hmt h) (hali h), Ok tt)
            | None => (h, Err EKey)
            end.
 Definition top_mod (l : loc) (f : topcell -> topcell) : M unit :=
   do c <- top_get l; top_set l (f c).
 Definition top_alloc_list (cs : list topcell) : M (list loc) :=
-  fun h => (mkHeap (hgro h) (htop h ++ cs) (hmt h), Ok (seq (length (htop h)) (length cs))).
+  fun h => (mkHeap (hgro h) (htop h ++ cs) (hmt h) (hali h), Ok (seq (length (htop h)) (length cs))).
 
 Definition mt_get (l : loc) : M string :=
   fun h => (h, match nth_error (hmt h) l with Some c => Ok c | None => Err EKey end).
 Definition mt_set (l : loc) (c : string) : M unit :=
   fun h => match nth_error (hmt h) l with
-           | Some _ => (mkHeap (hgro h) (htop h) (upd (hmt h) l c), Ok tt)
+           | Some _ => (mkHeap (hgro h) (htop h) (upd (hmt h) l c) (hali h), Ok tt)
            | None => (h, Err EKey)
            end.
 Definition mt_alloc (c : string) : M loc :=
-  fun h => (mkHeap (hgro h) (htop h) (hmt h ++ [c]), Ok (length (hmt h))).
+  fun h => (mkHeap (hgro h) (htop h) (hmt h ++ [c]) (hali h), Ok (length (hmt h))).
+
+Definition ali_get (l : loc) : M (option mol * option mol) :=
+  fun h => (h, match nth_error (hali h) l with Some c => Ok c | None => Err EKey end).
+Definition ali_set (l : loc) (c : option mol * option mol) : M unit :=
+  fun h => match nth_error (hali h) l with
+           | Some _ => (mkHeap (hgro h) (htop h) (hmt h) (upd (hali h) l c), Ok tt)
+           | None => (h, Err EKey)
+           end.
 
 (* ------------------------------------------------------------------ field setters *)
 Definition gset_pos (p : V3 T) (c : grocell) :=
@@ -138,9 +150,11 @@ Inductive handle :=
 | HR (gs : list loc)                             (* Residue: its list of AtomGro *)
 | HA (t g : loc)                                 (* Atom: (AtomTop, AtomGro) pair, a view *)
 | HM (mt : loc) (ts : list loc) (rs : list (list loc))   (* Molecule: MoleculeTop (name cell, atoms), residues *)
-| HS (insts : list (loc * list loc * list (list grocell))).
+| HS (insts : list (loc * list loc * list (list grocell)))
+| HL (a : loc).                                  (* Alignment object *)
    (* System: per molecule instance in file order, the MoleculeTop of its species and the
-      residues as they stand in the coordinate file (re-read at every hand-out) *)
+      residues as they stand in the coordinate file (re-read at every hand-out);
+      Alignment: a cell of the `ali` store holding what its two ends currently refer to *)
 
 (* Atom.__init__: the coordinate atom and the topology atom must agree on resname and name *)
 Definition view_check (t g : loc) : M unit :=
@@ -253,7 +267,10 @@ Inductive op :=
 | OSetResnamesAll (s : string) | OSetResnames (ss : list string)
 | OSetMolName (s : string)
 | OSetPos (p : V3 T) | OSetVel (v : option (V3 T)) | OSetAtomId (z : Z)
-| OSetResid (z : Z) | OSetTopResid (z : Z) | OSetResname (s : string) | OSetName (s : string).
+| OSetResid (z : Z) | OSetTopResid (z : Z) | OSetResname (s : string) | OSetName (s : string)
+(* ali.start = fam[j] (side = true) / ali.end = fam[j] (side = false) / = None; run by `step`, which
+   resolves j in the family (see step_ali below) *)
+| OAliSet (side : bool) (j : option nat).
 
 (* what a handle-producing operation hands back *)
 Inductive outkind := NewView | NewCopy | NewDeep.
@@ -357,7 +374,7 @@ Definition exec (X : handle) (o : op) : M (option (outkind * handle)) :=
    groups are ghost labels: nothing in `exec` reads them. *)
 Definition family := list (nat * nat * handle).
 
-Definition step (st : heap * family) (ko : nat * op) : (heap * family) * res unit :=
+Definition step_plain (st : heap * family) (ko : nat * op) : (heap * family) * res unit :=
   let '(h, fam) := st in
   match nth_error fam (fst ko) with
   | None => (st, Err EIndex)
@@ -376,6 +393,78 @@ Definition step (st : heap * family) (ko : nat * op) : (heap * family) * res uni
       end
   end.
 
+(* ---- Alignment.start / Alignment.end setters ---- *)
+(* Atom.__eq__: resname and name as the coordinate atom has them, index and resid of the topology atom *)
+Definition atom_eqb (ga gb : grocell) (ta tb : topcell) : bool :=
+  String.eqb (g_resname ga) (g_resname gb) && String.eqb (g_name ga) (g_name gb) &&
+  Nat.eqb (t_index ta) (t_index tb) && Z.eqb (t_resid ta) (t_resid tb).
+(* for at1, at2 in zip(self, molecule): if at1 != at2: return False   (both iterations build views) *)
+Fixpoint eq_loop (la lb : list (loc * loc)) : M bool :=
+  match la, lb with
+  | (ta, ga) :: ra, (tb, gb) :: rb =>
+      do _ <- view_check ta ga; do _ <- view_check tb gb;
+      do ca <- gro_get ga; do cb <- gro_get gb; do tca <- top_get ta; do tcb <- top_get tb;
+      if atom_eqb ca cb tca tcb then eq_loop ra rb else ret false
+  | _, _ => ret true
+  end.
+(* Molecule.__eq__ (A == B): names, lengths, then atom by atom *)
+Definition mol_eq (A B : mol) : M bool :=
+  do na <- mt_get (fst (fst A)); do nb <- mt_get (fst (fst B));
+  if negb (String.eqb nb na) then ret false
+  else if negb (Nat.eqb (length (concat (snd B))) (length (concat (snd A)))) then ret false
+  else eq_loop (combine (snd (fst A)) (concat (snd A))) (combine (snd (fst B)) (concat (snd B))).
+
+Definition side_get (side : bool) (c : option mol * option mol) : option mol := if side then fst c else snd c.
+Definition side_set (side : bool) (c : option mol * option mol) (v : option mol) : option mol * option mol :=
+  if side then (v, snd c) else (fst c, v).
+
+(* ali.start = None *)
+Definition ali_clear (a : loc) (side : bool) : M unit :=
+  do c <- ali_get a; ali_set a (side_set side c None).
+(* ali.start = molecule:  copy when one of the two ends is still None, or when the molecule equals
+   the stored one; ValueError otherwise.  What is stored is ALWAYS molecule.copy(). *)
+Definition ali_assign (a : loc) (side : bool) (m : mol) : M handle :=
+  do c <- ali_get a;
+  do ok <- match side_get side c, side_get (negb side) c with
+           | Some cur, Some _ => mol_eq m cur
+           | _, _ => ret true
+           end;
+  if ok then
+    do Y <- mol_init (fst (fst m)) (snd (fst m)) (snd m);
+    do _ <- match Y with
+            | HM mt ts rs => ali_set a (side_set side c (Some (mt, ts, rs)))
+            | _ => fail EKey
+            end;
+    ret Y
+  else fail EValue.
+
+Definition step_ali (st : heap * family) (k : nat) (side : bool) (oj : option nat) : (heap * family) * res unit :=
+  let '(h, fam) := st in
+  match nth_error fam k with
+  | Some (_, _, HL a) =>
+      match oj with
+      | None => let '(h', r) := ali_clear a side h in ((h', fam), r)
+      | Some j =>
+          match nth_error fam j with
+          | Some (_, tj, HM mt ts rs) =>
+              match ali_assign a side (mt, ts, rs) h with
+              | (h', Ok Y) => ((h', fam ++ [(length fam, tj, Y)]), Ok tt)   (* the stored copy: what ali.start now returns *)
+              | (h', Err e) => ((h', fam), Err e)
+              end
+          | Some _ => (st, Err EType)
+          | None => (st, Err EIndex)
+          end
+      end
+  | Some _ => (st, Err EType)
+  | None => (st, Err EIndex)
+  end.
+
+Definition step (st : heap * family) (ko : nat * op) : (heap * family) * res unit :=
+  match snd ko with
+  | OAliSet side oj => step_ali st (fst ko) side oj
+  | _ => step_plain st ko
+  end.
+
 (* a whole run; exceptions are caught by the caller (the state they leave is kept) *)
 Fixpoint run (st : heap * family) (ops : list (nat * op)) : heap * family :=
   match ops with
@@ -386,7 +475,7 @@ Fixpoint run (st : heap * family) (ops : list (nat * op)) : heap * family :=
 (* ------------------------------------------------------------------ what the API reads *)
 Definition gro_locs (X : handle) : list loc :=
   match X with
-  | HG g => [g] | HR gs => gs | HA _ g => [g] | HM _ _ rs => concat rs | HS _ => []
+  | HG g => [g] | HR gs => gs | HA _ g => [g] | HM _ _ rs => concat rs | HS _ => [] | HL _ => []
   end.
 Definition top_locs (X : handle) : list loc :=
   match X with
@@ -415,7 +504,7 @@ Definition read_ids (h : heap) (X : handle) : res (list Z) :=
 (* Molecule.resids / resnames: [res.resid for res in residues], res.resid = res[0].resid:
    the coordinate atom of the first atom of every residue *)
 Definition residues_of (X : handle) : list (list loc) :=
-  match X with HM _ _ rs => rs | HR gs => [gs] | HG g => [[g]] | HA _ g => [[g]] | HS _ => [] end.
+  match X with HM _ _ rs => rs | HR gs => [gs] | HG g => [[g]] | HA _ g => [[g]] | HS _ => [] | HL _ => [] end.
 Definition first_cell (h : heap) (r : list loc) : res grocell :=
   match r with [] => Err EIndex | g :: _ => nth_res (hgro h) g end.
 Definition read_resids (h : heap) (X : handle) : res (list Z) :=
